@@ -82,12 +82,15 @@ def write_klattgrid(spec, trailing_blank=True, style="plain"):
         head(name)
         _pts(L, spec["points"].get(name, []), "", n, sp)
 
-    def sub(kind, lists):
+    def sub(kind, lists, key=None):
+        # spec["spans"][key][k] = (xmin, xmax) of sub-tier k when it differs from the grid's own span
+        spans = (spec.get("spans") or {}).get(key) or []
         L.append("%s: size = %d%s" % (kind, len(lists), sp))
         for k, pts in enumerate(lists):
+            slo, shi = spans[k] if k < len(spans) and spans[k] else (lo, hi)
             L.append("%s [%d]:" % (kind, k + 1))
-            L.append("    xmin = %s%s" % (n(lo), sp))
-            L.append("    xmax = %s%s" % (n(hi), sp))
+            L.append("    xmin = %s%s" % (n(slo), sp))
+            L.append("    xmax = %s%s" % (n(shi), sp))
             _pts(L, pts, "    ", n, sp)
 
     head("phonation")
@@ -95,8 +98,8 @@ def write_klattgrid(spec, trailing_blank=True, style="plain"):
         ptier(name)
     head("vocalTract")
     head("oral_formants")
-    sub("formants", spec["oral"])
-    sub("bandwidths", spec["oral_bw"])
+    sub("formants", spec["oral"], "oral")
+    sub("bandwidths", spec["oral_bw"], "oral_bw")
     head("nasal_formants")
     sub("formants", [spec.get("nasal", [])])
     sub("bandwidths", [[]])
@@ -119,8 +122,8 @@ def write_klattgrid(spec, trailing_blank=True, style="plain"):
     head("frication")
     ptier("fricationAmplitude")
     head("frication_formants")
-    sub("formants", spec["fric"])
-    sub("bandwidths", spec["fric_bw"])
+    sub("formants", spec["fric"], "fric")
+    sub("bandwidths", spec["fric_bw"], "fric_bw")
     sub("frication_formants_amplitudes", [[] for _ in spec["fric"]])
     ptier("bypass")
     ptier("gain")
@@ -144,10 +147,12 @@ def expected_stream(spec):
         head()
         pts(spec["points"].get(name, []))
 
-    def sub(lists):
+    def sub(lists, key=None):
+        spans = (spec.get("spans") or {}).get(key) or []
         out.append(("n", len(lists)))
-        for p in lists:
-            out.extend([("n", lo), ("n", hi)])
+        for k, p in enumerate(lists):
+            slo, shi = spans[k] if k < len(spans) and spans[k] else (lo, hi)
+            out.extend([("n", slo), ("n", shi)])
             pts(p)
 
     head()
@@ -155,8 +160,8 @@ def expected_stream(spec):
         ptier(name)
     head()
     head()
-    sub(spec["oral"])
-    sub(spec["oral_bw"])
+    sub(spec["oral"], "oral")
+    sub(spec["oral_bw"], "oral_bw")
     head()
     sub([spec.get("nasal", [])])
     sub([[]])
@@ -179,8 +184,8 @@ def expected_stream(spec):
     head()
     ptier("fricationAmplitude")
     head()
-    sub(spec["fric"])
-    sub(spec["fric_bw"])
+    sub(spec["fric"], "fric")
+    sub(spec["fric_bw"], "fric_bw")
     sub([[] for _ in spec["fric"]])
     ptier("bypass")
     ptier("gain")
